@@ -1,8 +1,10 @@
 ---- MODULE Dbg ----
-EXTENDS FieldValue, Json, IOUtils, TLC, TLCExt
-Events == ndJsonDeserialize(IOEnv.TRACE_FILE)
-ASSUME PrintT(Events[1])
-ASSUME PrintT(EncVal(FALSE, Events[1].in))
-ASSUME PrintT(Events[1].out.b = EncVal(FALSE, Events[1].in).b)
-ASSUME PrintT(DecVal(Events[1].out.b))
+EXTENDS Frames, Json, IOUtils, TLC, TLCExt
+E == JsonDeserialize(IOEnv.TRACE_FILE)
+S1 == Marshal(FALSE, E.f, E.ch)
+S2 == Marshal(TRUE, E.f, E.ch)
+Diff(a, b) == { i \in 1..MinI(Len(a), Len(b)) : a[i] # b[i] }
+ASSUME PrintT(<<"ok", S1.ok, S2.ok, Len(S1.b), Len(E.b), S1.b = E.b, S2.b = E.b>>)
+ASSUME PrintT(<<"diff", Diff(S1.b, E.b)>>)
+ASSUME PrintT(<<"around", SubSeq(S1.b, 150, 200), SubSeq(E.b, 150, 200)>>)
 ====
